@@ -178,6 +178,10 @@ def clauses (h : Hist) (op : Op) (r : Resp) : List (String × Bool) :=
 def allowed (h : Hist) (op : Op) (r : Resp) : Bool :=
   (clauses h op r).all (·.2)
 
+/-- The clauses as an acceptor of recorded answers (used on concurrent histories). -/
+def accept (h : Hist) (op : Op) (r : Resp) : Option Hist :=
+  if allowed h op r then some ((op, r) :: h) else none
+
 /-- Every answer of a whole observed trace (oldest first) is acceptable given the answers
 before it. -/
 def allowedTrace (h : Hist) : List Ev → Bool
